@@ -231,6 +231,10 @@ class FakeSocket:
     def gettimeout(self):
         return self._timeout
 
+    def setblocking(self, flag):
+        # setblocking(False) == settimeout(0.0); setblocking(True) == settimeout(None)
+        self._timeout = None if flag else 0.0
+
     def bind(self, addr):
         self.bound = addr
 
@@ -343,6 +347,18 @@ class FakeSocket:
             # time-outs than any retry budget allows and the server still has not given up: it will never stop
             tr.runaway = True
             raise Runaway()
+        if self._timeout is not None and self._timeout == 0:
+            # non-blocking: only what has ALREADY arrived (a datagram of the script that follows its predecessor
+            # without any delay) can be read; otherwise the call fails at once and no time passes
+            clock = _clock()
+            if tr.script and tr.script[0][0] != "silence" and tr.script[0][1] == 0:
+                _, delay, cpu, src, data = tr.script.pop(0)
+                t = clock[0]
+                clock[0] += cpu
+                d = bytes(data)[:bufsize]
+                tr.log.append(["recv", t, clock[0], src, d.hex()])
+                return d, addr_of(src)
+            raise BlockingIOError(11, "Resource temporarily unavailable")
         to = to_ticks(self._timeout)
         if to <= 0:
             raise InfraError("non-blocking transfer socket")
